@@ -11,6 +11,13 @@
 (*             "star"     static: U -> "*"                                  *)
 (*             "absent"   static table without an entry for the user        *)
 (*             "prepare"  identity + prepare_email alias -> own address     *)
+(*             "chain_req" table.chain: step U -> group, step group -> own  *)
+(*                        address, alias (both required; V is in no group)   *)
+(*             "chain_dom" table.chain: step U -> tenant key that is the     *)
+(*                        domain name, V -> group; step group -> V's address *)
+(*                        (the tenant key has no addresses: U gets nothing)  *)
+(*             "chain_opt" table.chain: optional_step U -> own address,      *)
+(*                        alias (a miss passes the user name on = identity)  *)
 (*   norm    auth_normalize = from_normalize, every documented setting     *)
 (*   auth    the authenticated user as the client spelled it, [a, v];      *)
 (*           a = "none": not authenticated                                 *)
@@ -28,7 +35,11 @@
 (*   nb      a neighbour check in the same check block that fails at the    *)
 (*           sender and body stages with this action: "absent" (no such     *)
 (*           check) | "none" (it passes) | "quarantine" | "reject"           *)
+(*   act     how unauth_action / no_match_action / err_action are written:  *)
+(*           "default" (absent), "reject", "quarantine", "custom_reject"    *)
+(*           (reject 553 5.7.1 "text"), "custom_quarantine"                 *)
 (*   fam     the row family (bookkeeping only)                              *)
+(* Output [accepted, flagged]: flagged = delivered with the quarantine flag *)
 (* Addresses [a, v]: a = which mailbox, v = how it is spelled; all         *)
 (* spellings of a mailbox are the same address (case, NFC/NFD, full-width, *)
 (* A-label/U-label domain).                                                *)
@@ -36,6 +47,10 @@
 (*   peer  bob@example.org (V's own)   foreign mallory@evil.example        *)
 (*   look  zoe@example.org.evil.example    sub   zoe@mail.example.org      *)
 (*   suffix zoe@evilexample.org                                            *)
+(*   ivy   ivy@example.org (in the address list of U)                        *)
+(*   ivyd  Ivy@example.org spelled with U+0130 (capital dotted I): another   *)
+(*         mailbox (PRECIS maps U+0130 to i + U+0307), but strings.ToLower   *)
+(*         - and therefore the "casefold" setting - turns it into ivy        *)
 (*   null  the null reverse-path MAIL FROM:<> (envelope only): nobody's     *)
 (*         address, nobody is entitled to it                                *)
 (*   pm    "postmaster" without a domain (envelope only): an address like   *)
@@ -50,7 +65,7 @@
 EXTENDS Naturals, Sequences, FiniteSets, TLC, Json
 
 CONSTANTS Devs,      \* enabled deviations
-          Families,  \* which row families to enumerate: subset of {"A", "B", "C"}
+          Families,  \* which row families to enumerate: subset of {"A" .. "F"}
           Gen        \* TRUE: print every row
 
 VARIABLE in
@@ -60,6 +75,8 @@ P(a) == Item(a, "plain")
 NoItem == Item("-", "-")
 
 Tbls  == {"identity", "list", "domain", "star", "absent", "prepare"}
+ChainTbls == {"chain_req", "chain_dom", "chain_opt"}
+QuarActs == {"quarantine", "custom_quarantine"}
 Addrs == {"self", "alias", "peer", "foreign", "look", "sub", "suffix"}
 Vars  == {"plain", "upper", "nfd", "wide", "idn"}
 Norms == {"auto", "precis_casefold_email", "precis_casefold", "precis_email", "precis", "casefold", "noop"}
@@ -69,15 +86,21 @@ Styles == {"bare", "angle", "dn", "dntrick", "encoded", "enctrick", "folded", "c
 (* ---- what the configuration entitles a user to (semantics, spelling-free) ---- *)
 Ent(tbl, u) ==
   IF u = "U" THEN CASE tbl = "identity" -> {"self"}
-                    [] tbl = "list"     -> {"self", "alias"}
-                    [] tbl = "domain"   -> {"self", "alias", "peer"}
-                    [] tbl = "star"     -> Addrs \cup {"pm"}      \* any address; the null path is none
+                    [] tbl = "list"     -> {"self", "alias", "ivy"}
+                    [] tbl = "domain"   -> {"self", "alias", "peer", "ivy", "ivyd"}
+                    [] tbl = "star"     -> Addrs \cup {"pm", "ivy", "ivyd"}   \* any address; the null path is none
                     [] tbl = "absent"   -> {}
                     [] tbl = "prepare"  -> {"self", "alias"}
-  ELSE IF u = "V" /\ tbl \in {"identity", "prepare"} THEN {"peer"}
+                    [] tbl = "chain_req" -> {"self", "alias"}
+                    [] tbl = "chain_dom" -> {}
+                    [] tbl = "chain_opt" -> {"self", "alias"}
+  ELSE IF u = "V" /\ tbl \in {"identity", "prepare", "chain_dom", "chain_opt"} THEN {"peer"}
   ELSE {}
 
-Entitled(r, it) == it.a \in Ent(r.tbl, r.auth.a)
+(* the operator's "casefold" setting is strings.ToLower, which makes U+0130 an i *)
+Canon(r, it) == IF it.a = "ivyd" /\ r.norm = "casefold" THEN [it EXCEPT !.a = "ivy"] ELSE it
+
+Entitled(r, it) == Canon(r, it).a \in Ent(r.tbl, r.auth.a)
 
 FromFields(f) ==
   CASE f.layout = "none"   -> <<>>
@@ -104,7 +127,9 @@ MustReject(r) ==
      /\ \E it \in AllFrom(r.from) : ~Entitled(r, it)
      /\ (r.sender = NoItem \/ ~Entitled(r, r.sender))
 
-Prop(r, out) == out.accepted => ~MustReject(r)
+(* where the operator chose the quarantine action, a delivery that carries the
+   quarantine flag is the refusal he asked for *)
+Prop(r, out) == (out.accepted /\ ~(r.act \in QuarActs /\ out.flagged)) => ~MustReject(r)
 
 (* ---- the documented algorithm ------------------------------------------------- *)
 (* what a normalisation function makes equal: the class of a spelling of the whole
@@ -123,33 +148,39 @@ DC(norm, v) ==
     [] norm = "casefold"        -> IF v \in {"plain", "upper", "wide"} THEN "c" ELSE v
     [] OTHER                    -> IF v \in {"plain", "wide"} THEN "c" ELSE v
 
-MainDomain(a) == a \in {"self", "alias", "peer"}
+MainDomain(a) == a \in {"self", "alias", "peer", "ivy", "ivyd"}
 Own(u) == IF u = "U" THEN "self" ELSE "peer"
 
 (* does the (normalised) address match what the table returns for the (normalised) user? *)
-Match(r, it0) ==
+Match(r, it00) ==
   LET n  == r.norm
+      it0 == Canon(r, it00)
       \* prepare_email: static alias -> own address of U, keyed by the canonical spelling
       it == IF r.tbl = "prepare" /\ it0.a = "alias" /\ NC(n, it0.v) = NC(n, "plain") THEN P("self") ELSE it0
       found == r.auth.a = "U" /\ NC(n, r.auth.v) = NC(n, "plain")      \* static tables are keyed by "U" canonical
+      foundV == r.auth.a = "V" /\ NC(n, r.auth.v) = NC(n, "plain")
+      ident == it.a = Own(r.auth.a) /\ NC(n, it.v) = NC(n, r.auth.v)   \* the entry is the normalised user name
+      inList(S) == it.a \in S /\ NC(n, it.v) = NC(n, "plain")
   IN IF it0.a = "null" THEN FALSE          \* "" cannot be split into mailbox and domain: refused
      ELSE IF it0.a = "pm"
      \* the e-mail normalisers turn it into "postmaster@", which the lookup refuses;
      \* the others leave a string that only "*" covers
      THEN r.tbl = "star" /\ found /\ n \in {"precis_casefold", "precis", "casefold", "noop"}
      ELSE
-     CASE r.tbl \in {"identity", "prepare"} ->
-            \* the entry is the normalised user name itself
-            it.a = Own(r.auth.a) /\ NC(n, it.v) = NC(n, r.auth.v)
-       [] r.tbl = "list"   -> found /\ it.a \in {"self", "alias"} /\ NC(n, it.v) = NC(n, "plain")
+     CASE r.tbl \in {"identity", "prepare"} -> ident
+       [] r.tbl = "list"   -> found /\ inList({"self", "alias", "ivy"})
+       [] r.tbl = "chain_req" -> found /\ inList({"self", "alias"})
+       [] r.tbl = "chain_dom" -> foundV /\ inList({"peer"})
+       [] r.tbl = "chain_opt" -> IF found THEN inList({"self", "alias"}) ELSE ident
        [] r.tbl = "domain" -> found /\ MainDomain(it.a) /\ DC(n, it.v) = DC(n, "plain")
        [] r.tbl = "star"   -> found
        [] OTHER            -> FALSE
 
-No(w)  == [accepted |-> FALSE, why |-> w]
-Yes    == [accepted |-> TRUE, why |-> "ok"]
+No(w)  == [accepted |-> FALSE, flagged |-> FALSE, why |-> w]
+Yes    == [accepted |-> TRUE, flagged |-> FALSE, why |-> "ok"]
 
-Rule(r, D) ==
+(* the decision with the reject action ... *)
+RuleReject(r, D) ==
   LET ff0 == FromFields(r.from)
       ff  == IF "FirstFromOnly" \in D /\ Len(ff0) > 1 THEN <<ff0[1]>> ELSE ff0
   IN
@@ -164,6 +195,13 @@ Rule(r, D) ==
   ELSE IF Match(r, ff[1][1]) THEN Yes
   ELSE IF r.sender # NoItem /\ r.sender # ff[1][1] /\ Match(r, r.sender) THEN Yes
   ELSE No("header")
+
+(* ... and with the action the operator wrote: quarantine lets the message pass with the flag *)
+Rule(r, D) ==
+  LET b == RuleReject(r, D) IN
+  IF r.act \in QuarActs /\ ~b.accepted /\ b.why \notin {"authzid", "neighbour"}
+  THEN [accepted |-> TRUE, flagged |-> TRUE, why |-> b.why]
+  ELSE b
 
 (* ---- the input space ------------------------------------------------------------ *)
 FromOne(X, S) == [layout : {"one"}, x : X, y : {NoItem}, style : S]
@@ -184,7 +222,7 @@ RowsA ==
     from : FromNone \cup FromOne(Plain(Addrs), Styles) \cup FromMulti({"two", "fields", "group"}, X3)
            \cup FromGroup1(X3),
     sender : {NoItem} \cup X3,
-    chk : {TRUE}, sasl : {Sasl0}, nb : {"absent"}, fam : {"A"} ]
+    chk : {TRUE}, sasl : {Sasl0}, nb : {"absent"}, act : {"default"}, fam : {"A"} ]
 
 (* family B: spellings against normalisation settings *)
 RowsB ==
@@ -194,7 +232,7 @@ RowsB ==
     mf : XV,
     from : FromOne(XV, {"angle"}),
     sender : {NoItem, Item("self", "upper"), Item("self", "idn"), Item("foreign", "upper")},
-    chk : {TRUE}, sasl : {Sasl0}, nb : {"absent"}, fam : {"B"} ]
+    chk : {TRUE}, sasl : {Sasl0}, nb : {"absent"}, act : {"default"}, fam : {"B"} ]
 
 (* family C: the session around the check - null / postmaster envelope senders, envelope-only
    mode, how the session was authenticated (mechanism, authorization identity), and a
@@ -208,10 +246,41 @@ RowsC ==
     chk : BOOLEAN,
     sasl : {Sasl0, [mech |-> "PLAIN", az |-> "same"], [mech |-> "PLAIN", az |-> "other"],
             [mech |-> "LOGIN", az |-> "empty"]},
-    nb : {"absent", "none", "quarantine", "reject"}, fam : {"C"} ]
+    nb : {"absent", "none", "quarantine", "reject"}, act : {"default"}, fam : {"C"} ]
+
+(* family D: the action directives, plain and with a custom SMTP reply *)
+RowsD ==
+  [ tbl : {"identity", "list"}, norm : {"auto"},
+    auth : {AuthNone, Item("U", "plain"), Item("V", "plain")},
+    mf : Plain({"self", "foreign", "null"}),
+    from : FromNone \cup FromOne(Plain({"self", "foreign"}), {"angle"}),
+    sender : {NoItem, P("self")},
+    chk : BOOLEAN, sasl : {Sasl0}, nb : {"absent", "quarantine"},
+    act : {"reject", "quarantine", "custom_reject", "custom_quarantine"}, fam : {"D"} ]
+
+(* family E: an entitled envelope sender followed, in the same message, by a mailbox
+   that only strings.ToLower confuses with it, under every normalisation setting *)
+RowsE ==
+  [ tbl : {"identity", "list", "domain"}, norm : Norms,
+    auth : {Item("U", "plain")},
+    mf : {P("ivy"), Item("ivy", "upper"), P("self")},
+    from : FromOne({P("ivyd"), Item("ivyd", "upper"), P("ivy"), P("foreign")}, {"angle"}),
+    sender : {NoItem, P("ivyd"), P("ivy")},
+    chk : {TRUE}, sasl : {Sasl0}, nb : {"absent"}, act : {"default"}, fam : {"E"} ]
+
+(* family F: user_to_email built with table.chain (required and optional steps) *)
+RowsF ==
+  LET X4 == Plain({"self", "alias", "peer", "foreign"}) IN
+  [ tbl : ChainTbls, norm : {"auto", "noop"},
+    auth : {AuthNone, Item("U", "plain"), Item("U", "upper"), Item("V", "plain")},
+    mf : X4,
+    from : FromNone \cup FromOne(X4, {"angle"}),
+    sender : {NoItem},
+    chk : {TRUE}, sasl : {Sasl0}, nb : {"absent"}, act : {"default"}, fam : {"F"} ]
 
 Rows == (IF "A" \in Families THEN RowsA ELSE {}) \cup (IF "B" \in Families THEN RowsB ELSE {})
-        \cup (IF "C" \in Families THEN RowsC ELSE {})
+        \cup (IF "C" \in Families THEN RowsC ELSE {}) \cup (IF "D" \in Families THEN RowsD ELSE {})
+        \cup (IF "E" \in Families THEN RowsE ELSE {}) \cup (IF "F" \in Families THEN RowsF ELSE {})
 
 Init == /\ in \in Rows
         /\ Gen => PrintT(<<"ROW", ToJson(in)>>)
